@@ -106,6 +106,7 @@ type failure struct {
 	Detail   []string `json:"detail"`
 	Shrunk   string   `json:"shrunk_op,omitempty"`     // a smaller op on which the property still fails
 	ShrunkBy []string `json:"shrunk_detail,omitempty"` // what fails on it
+	Before   []string `json:"before,omitempty"`        // the ops run just before (history-dependent failures replay with them)
 }
 
 type result struct {
@@ -202,9 +203,18 @@ func main() {
 	started := time.Now()
 	index := 0
 	stopped := false
+	var recent []string
 	process := func(c Case) {
 		i := index
 		index++
+		defer func() {
+			if len(c.Op) < 100000 {
+				recent = append(recent, c.Op)
+				if len(recent) > 3 {
+					recent = recent[1:]
+				}
+			}
+		}()
 		if stopped {
 			return
 		}
@@ -250,7 +260,7 @@ func main() {
 		// separate quotas: mismatches must never crowd out a property violation
 		if len(v.Oracle) > 0 {
 			if nOracle < *maxFail {
-				res.Failures = append(res.Failures, failure{Index: i, Op: c.Op, Kind: "oracle", Detail: v.Oracle})
+				res.Failures = append(res.Failures, failure{Index: i, Op: c.Op, Kind: "oracle", Detail: v.Oracle, Before: append([]string{}, recent...)})
 			}
 			nOracle++
 		} else if len(v.Mismatch) > 0 {
